@@ -106,6 +106,22 @@ def rich_specs():
     sp["obstacles"].append({"role": "static", "id": 43, "type": "CONSTRUCTION_ZONE", "shape": ["rect", 3.0, 1.0, 0.0, 0.0, 0.0], "initial_state": spec.init_state(x=18.0, y=5.5, o=0.2, v=0.0, t=5)})
     sp["obstacles"].append({"role": "static", "id": 44, "type": "ROAD_BOUNDARY", "shape": ["circle", 0.6, 0.0, 0.0], "initial_state": spec.init_state(x=22.0, y=6.0, o=0.0, v=0.0, t=12)})
     out["late-obstacles"] = sp
+    # obstacles of every role whose INITIAL position is a region (the occupancy is then the region swept by the shape), with exact later states
+    sp = speclib.base()
+    speclib.find(sp, "obstacles", 30)["initial_state"]["attrs"]["position"] = ["circle", 0.5, 20.0, 5.5]
+    speclib.find(sp, "obstacles", 31)["initial_state"]["attrs"]["position"] = ["rect", 1.0, 0.5, 12.5, 1.75, 0.0]
+    speclib.find(sp, "obstacles", 32)["initial_state"]["attrs"]["position"] = ["poly", [[24.0, 1.0], [25.0, 1.0], [25.0, 2.0], [24.0, 2.0]]]
+    out["uncertain-initial-positions"] = sp
+    # signal states that carry only some of the (all optional) signals, a different subset at every time step
+    sp = speclib.base()
+    o = speclib.find(sp, "obstacles", 31)
+    o["initial_signal_state"] = {"time_step": 0, "indicator_left": True}
+    o["signal_series"] = [{"time_step": 1, "indicator_right": True}, {"time_step": 2, "indicator_left": False, "braking_lights": True}, {"time_step": 3, "hazard_warning_lights": False, "indicator_left": True},
+                          {"time_step": 4, "horn": True}, {"time_step": 5, "flashing_blue_lights": True, "indicator_right": False}, {"time_step": 6, "hazard_warning_lights": True}]
+    o = speclib.find(sp, "obstacles", 30)
+    o["initial_signal_state"] = {"time_step": 0, "indicator_right": True}
+    o["signal_series"] = [{"time_step": 1, "indicator_left": True}, {"time_step": 2, "braking_lights": True}, {"time_step": 3}]
+    out["partial-signals"] = sp
     return out
 
 
@@ -117,9 +133,9 @@ def build(name, tmpdir):
     return spec.build(rich_specs()[name])
 
 
-RICH = ["base", "late-obstacles", "pm-trajectory", "custom-pm-trajectory", "uncertain-states", "defaults", "file:test_reading_all.xml", "file:test_reading_intersection_traffic_sign.xml",
+RICH = ["base", "late-obstacles", "pm-trajectory", "custom-pm-trajectory", "uncertain-states", "uncertain-initial-positions", "partial-signals", "defaults", "file:test_reading_all.xml", "file:test_reading_intersection_traffic_sign.xml",
         "file:test_reading_complex_tl.xml"]
-EXACT = ["base", "late-obstacles", "pm-trajectory", "defaults"]
+EXACT = ["base", "late-obstacles", "pm-trajectory", "defaults", "uncertain-states", "uncertain-initial-positions", "partial-signals"]
 
 
 # ------------------------------------------------------------------------------------ (a) totality
@@ -222,6 +238,12 @@ def expected_patches(sc, window):
                 oc = o.occupancy_at_time(t)
                 if oc is not None:
                     req += shape_keys(oc.shape)
+        # a state whose position is a region: the region itself may be drawn in addition to (never instead of) the occupancy
+        from commonroad.geometry.shape import Shape
+        sts = ([o.initial_state] if hasattr(o, "initial_state") else []) + ([] if getattr(o, "prediction", None) is None or not hasattr(o.prediction, "trajectory") else list(o.prediction.trajectory.state_list))
+        for st in sts:
+            if isinstance(getattr(st, "position", None), Shape):
+                opt += shape_keys(st.position) * 4
         if role == "PHANTOM":
             for t in range(b + 1, e):
                 oc = o.occupancy_at_time(t)
